@@ -21,15 +21,61 @@
          known findings of C19).
    A disabled filter: getfilter returns the tree inside the wrapper, which is the tree that was built (C12's
    refinement: op_get on a disabled entry), so (a) and (b) apply unchanged (the example evaluates exactly that).
-   Not proved: the read-back on RELOADED sets (trees built by the parser take the list branch of args_as_tuple);
-   address conditions, notsize, values with commas (known findings).  These are evaluated on the implementation
-   and, for the model, by the differential run on reloaded sets. *)
+     (d) reloaded sets (factory/ReadReload.v): the parser stores string lists as lists, so args_as_tuple takes its
+         list branch (re-render, split again); for the same forms and value class the tree the parser builds for the
+         filter's script is read back exactly as supplied (C19_parsed_tree_read_back), and for every non-empty set of
+         good filters saved by FiltersSet.tosieve the parsed script's filters -- out of their `if false` wrapper
+         when disabled -- are read back as they were defined (C19_reloaded_read_back; uses that the tree of a
+         script of the grammar is determined by the script, sieve/WfFun.v).
+   Not proved: get_filter_actions on reloaded sets; address conditions, notsize, values with commas (known
+   findings).  These are evaluated on the implementation and, for the model, by the differential runs. *)
 From Coq Require Import String.
 From Coq Require Import List NArith Bool Arith.
 From SV Require Import Bytes Lexer Text TextFacts.
 Import ListNotations.
 Local Open Scope nat_scope.
-From SV Require Import Tables ArgCheck ArgSpec Machine Printer GenTables Ops Build BuildFacts BuildSet Read ReadFacts FactoryConsts ConstFacts.
+From SV Require Import Tables ArgCheck ArgSpec Machine Printer GenTables Ops Build BuildFacts BuildSet Read ReadFacts ReadReload FactoryConsts ConstFacts.
+
+(* on a set reloaded from its rendered script: the parser accepts the text and every filter of the parsed script (taken out of its `if false` wrapper when disabled, as getfilter does) is read back as it was defined *)
+Theorem C19_reloaded_read_back :
+  forall (np dp : bytes) (loaded : list bytes) (fuel : nat) (reqs : list bytes)
+    (sfs : list sfilter) (defs : list fdef),
+  sfs <> [] ->
+  kreqs reqs ->
+  Forall (sf_ok np dp reqs fuel) sfs ->
+  4 <= fuel ->
+  Forall2 def_ok sfs defs ->
+  exists (text : bytes) (ns nps : list node),
+    render_set gen_tables loaded fuel np dp
+      {| bs_requires := reqs; bs_filters := map sf_bf sfs |} = BOk text /\
+    parse gen_tables text = Accept ns /\
+    match reqs with
+    | [] => ns = nps
+    | _ :: _ => ns = req_pnode reqs :: nps
+    end /\
+    Forall2
+      (fun (xd : sfilter * fdef) (n : node) =>
+       exists flt : node, got (sf_dis (fst xd)) n flt /\ read_ok fuel (snd xd) flt)
+      (combine sfs defs) nps.
+Proof. exact ReadReload.reload_read_back. Qed.
+Print Assumptions C19_reloaded_read_back.
+
+(* the tree the PARSER builds for the script of a documented filter (string lists stored as lists: the list branch of args_as_tuple) is read back exactly as supplied *)
+Theorem C19_parsed_tree_read_back :
+  forall (conds : list dcond) (acts : list dact) (anyof : bool) (L : list bytes)
+    (prev : option bytes) (fuel : nat),
+  conds <> [] ->
+  Forall cond_ok conds ->
+  Forall rcond_ok conds ->
+  Forall act_ok acts ->
+  (forall e : bytes, In e (fexts conds acts) -> mem e L = true) ->
+  4 <= fuel ->
+  exists np : node,
+    CompleteTree.wf_cmd gen_tables L prev (std_fcmd conds acts anyof) np L /\
+    std_get_conditions fuel np = ROk (map (fun d : dcond => map fv_rv (ctuple d)) conds) /\
+    get_matchtype fuel np = Some (mt_name anyof).
+Proof. exact ReadReload.factory_parsed_filter. Qed.
+Print Assumptions C19_parsed_tree_read_back.
 
 (* get_filter_conditions reads exactly the command classes listed in the source on this run *)
 Theorem C19_readable_classes :
@@ -37,8 +83,8 @@ Theorem C19_readable_classes :
     (fun l : list bytes =>
      forall (strip : bytes -> bytes) (has_comma : bytes -> bool)
        (tolist : bool -> bytes -> list bytes) (is_bracket is_digits : bytes -> bool)
-       (n : node),
-     cond_tuple strip has_comma tolist is_bracket is_digits n = None <->
+       (render : list bytes -> bytes) (n : node),
+     cond_tuple strip has_comma tolist is_bracket is_digits render n = None <->
      mem (d_name (node_def n)) l = false).
 Proof. exact ConstFacts.readable_is_the_tuple. Qed.
 Print Assumptions C19_readable_classes.
